@@ -99,7 +99,8 @@ static int g_go;                      /* relaxed start flag */
 static inline int a_done(void) { return __atomic_load_n(&g_a_done, __ATOMIC_RELAXED); }
 static inline long a_frame(void) { return __atomic_load_n(&g_a_frame, __ATOMIC_RELAXED); }
 
-#define NTHREADS 4
+#define NTHREADS 5                    /* A, B, C, D and M = the main thread (set-up and tear-down calls) */
+#define TM 4
 static long g_progress[NTHREADS];     /* relaxed, one writer each: one increment per API call */
 static const char *g_phase[NTHREADS]; /* relaxed pointer to string literal: the API call the thread is in, "pace" or "done" */
 static int g_tid[NTHREADS];           /* relaxed: kernel thread id (for /proc/self/task/<tid>/stat) */
@@ -741,30 +742,37 @@ static char task_state(int tid, double *cpu)
 	return st;
 }
 
-/* Bounded progress: returns when all threads finished; writes "stall:C20" and
- * exits 98 when a thread stays inside one API call for stall_s seconds or no
- * thread makes progress for stall_s seconds.  A thread the kernel shows as
- * runnable (state R) that got no CPU is starved by the machine, not blocked:
- * it gets three times the budget. */
-static void join_with_watchdog(pthread_t *th, int nth, int n, const char *scenario)
+/* Bounded progress.  The watchdog is a thread of its own that runs from the
+ * first to the last library call of the case (set-up and tear-down by the main
+ * thread included): it writes "stall:C20" and exits 98 when a thread stays
+ * inside one API call for stall_s seconds, or nobody makes progress for three
+ * times as long.  A thread the kernel shows as runnable (state R) that got
+ * no CPU is starved by the machine, not blocked: it gets three times the budget. */
+static pthread_t g_wd_thread;
+static int g_wd_running, g_wd_stop;
+static const char *g_wd_scenario;
+static pthread_mutex_t g_rep_mx = PTHREAD_MUTEX_INITIALIZER;   /* orders the (rare) reports of main's set-up and of the watchdog */
+#define SETUP_FAIL(...) do { pthread_mutex_lock(&g_rep_mx); vf_fail(__VA_ARGS__); pthread_mutex_unlock(&g_rep_mx); } while (0)
+
+static void *watchdog_thread(void *arg)
 {
 	long last[NTHREADS] = {0}, stall_s = vf_param[2] > 0 ? vf_param[2] : 40;
 	struct timespec t_last[NTHREADS], t_any, now;
 	double cpu_half[NTHREADS] = {0};
 	int half_taken[NTHREADS] = {0};
-	int i, alive;
+	const int n = NTHREADS;
+	int i;
+	(void)arg;
 	clock_gettime(CLOCK_MONOTONIC, &t_any);
 	for (i = 0; i < NTHREADS; i++) t_last[i] = t_any;
-	for (;;) {
+	while (!__atomic_load_n(&g_wd_stop, __ATOMIC_RELAXED)) {
 		int stuck = -1;
-		alive = 0;
 		clock_gettime(CLOCK_MONOTONIC, &now);
 		for (i = 0; i < n; i++) {
 			long p = __atomic_load_n(&g_progress[i], __ATOMIC_RELAXED);
 			const char *ph = __atomic_load_n(&g_phase[i], __ATOMIC_RELAXED);
 			int in_call = ph && strcmp(ph, "done") && strcmp(ph, "pace");
 			long idle;
-			if (!ph || strcmp(ph, "done")) alive++;
 			if (p != last[i]) { last[i] = p; t_last[i] = now; t_any = now; half_taken[i] = 0; }
 			idle = (long)(now.tv_sec - t_last[i].tv_sec);
 			if (in_call && idle >= stall_s / 2 && !half_taken[i]) { task_state(__atomic_load_n(&g_tid[i], __ATOMIC_RELAXED), &cpu_half[i]); half_taken[i] = 1; }
@@ -775,10 +783,9 @@ static void join_with_watchdog(pthread_t *th, int nth, int n, const char *scenar
 				if (stuck < 0) stuck = i;
 			}
 		}
-		if (!alive) break;
 		if (stuck < 0 && now.tv_sec - t_any.tv_sec >= 3 * stall_s) stuck = n;   /* nobody moves, nobody is inside a call */
 		if (stuck >= 0) {
-			char ph[400];
+			char ph[600];
 			int o = 0, spinning = 0;
 			for (i = 0; i < n; i++) {
 				const char *p = __atomic_load_n(&g_phase[i], __ATOMIC_RELAXED);
@@ -788,7 +795,7 @@ static void join_with_watchdog(pthread_t *th, int nth, int n, const char *scenar
 				int in_call = p && strcmp(p, "done") && strcmp(p, "pace");
 				double used = half_taken[i] ? cpu - cpu_half[i] : 0;
 				/* the threads that did not return; the others are reported as "busy" / "pace" / "done" */
-				o += snprintf(ph + o, sizeof ph - (size_t)o, "%s%c=%s", i ? "," : "", "ABCD"[i],
+				o += snprintf(ph + o, sizeof ph - (size_t)o, "%s%c=%s", i ? "," : "", "ABCDM"[i],
 					      !p ? "?" : in_call && idle < stall_s / 2 ? "busy" : p);
 				if (in_call && idle >= stall_s / 2) {
 					if (used > 0.4 * (double)(stall_s - stall_s / 2)) spinning = 1;
@@ -796,14 +803,36 @@ static void join_with_watchdog(pthread_t *th, int nth, int n, const char *scenar
 				}
 			}
 			if (vf_param[3]) dump_gdb();
-			vf_fail("stall:C20", "scenario %s: %s; kind %s ; phases %s ; progress A=%ld B=%ld C=%ld D=%ld",
-				scenario, stuck < n ? "an API call did not return" : "no thread made progress",
-				spinning ? "spinning" : "blocked", ph, last[0], last[1], last[2], last[3]);
+			pthread_mutex_lock(&g_rep_mx);
+			vf_fail("stall:C20", "scenario %s: %s; kind %s ; phases %s ; progress A=%ld B=%ld C=%ld D=%ld M=%ld",
+				g_wd_scenario, stuck < n ? "an API call did not return" : "no thread made progress",
+				spinning ? "spinning" : "blocked", ph, last[0], last[1], last[2], last[3], last[4]);
 			_exit(98);
 		}
 		usleep(5000);
 	}
-	for (i = 0; i < nth; i++) pthread_join(th[i], NULL);
+	return NULL;
+}
+
+static void watchdog_start(const char *scenario)
+{
+	g_wd_scenario = scenario;
+	g_wd_stop = 0;
+	memset(g_progress, 0, sizeof g_progress);
+	memset((void *)g_phase, 0, sizeof g_phase);
+	memset(g_tid, 0, sizeof g_tid);
+	set_tid(TM);
+	progress(TM, "pace");
+	if (pthread_create(&g_wd_thread, NULL, watchdog_thread, NULL) != 0) { fprintf(stderr, "c20: cannot start the watchdog\n"); exit(2); }
+	g_wd_running = 1;
+}
+
+static void watchdog_stop(void)
+{
+	if (!g_wd_running) return;
+	__atomic_store_n(&g_wd_stop, 1, __ATOMIC_RELAXED);
+	pthread_join(g_wd_thread, NULL);
+	g_wd_running = 0;
 }
 
 /* ---- post-run analysis (main thread, after join) ---- */
@@ -1047,29 +1076,33 @@ static int run_a(struct vf_rng *r)
 	A.cap_sw = frames + 16;
 	A.sw = xcalloc((size_t)A.cap_sw, sizeof *A.sw);
 
-	vf_phase("vbi_decoder_new");
+	vf_phase("scenario-a");
+	progress(TM, "vbi_decoder_new");
 	A.vbi = vbi_decoder_new();
-	if (!A.vbi) { vf_fail("harness:alloc", "vbi_decoder_new failed"); return 0; }
+	if (!A.vbi) { SETUP_FAIL("harness:alloc", "vbi_decoder_new failed"); return 0; }
+	progress(TM, "vbi_event_handler_register");
 	vbi_event_handler_register(A.vbi, VBI_EVENT_CAPTION | VBI_EVENT_TTX_PAGE | VBI_EVENT_NETWORK | VBI_EVENT_NETWORK_ID
 				   | VBI_EVENT_ASPECT | VBI_EVENT_PROG_INFO | VBI_EVENT_TRIGGER, a_handler, NULL);
 	/* snapshot 0: the state after a channel switch = the blank pages */
 	A.a_frame_now = -1;
+	progress(TM, "vbi_fetch_cc_page(set-up)");
 	a_snapshot(0);
+	progress(TM, "pace");
 	for (p = 0; p < 8; p++) A.blank[p] = A.chg[p][0].s;
 
 	g_a_done = 0; g_a_frame = 0; g_go = 0; g_a_gap_frame = -1;
-	memset(g_progress, 0, sizeof g_progress);
-	memset((void *)g_phase, 0, sizeof g_phase);
-	memset(g_tid, 0, sizeof g_tid);
-	vf_phase("scenario-a");
-	/* --p4 bit 0: no thread C; bit 1: no thread D (thorough tier varies the thread count) */
+	/* --p4 bit 0: no thread C; bit 1: no thread D */
 	nt = 0;
 	pthread_create(&th[nt++], NULL, a_decoder_thread, NULL);
 	pthread_create(&th[nt++], NULL, a_fetch_thread, (void *)0L);
-	if (vf_param[4] & 1) g_phase[2] = "done"; else pthread_create(&th[nt++], NULL, a_fetch_thread, (void *)1L);
-	if (vf_param[4] & 2) g_phase[3] = "done"; else pthread_create(&th[nt++], NULL, a_switch_thread, NULL);
+	if (vf_param[4] & 1) progress(2, "done"); else pthread_create(&th[nt++], NULL, a_fetch_thread, (void *)1L);
+	if (vf_param[4] & 2) progress(3, "done"); else pthread_create(&th[nt++], NULL, a_switch_thread, NULL);
 	__atomic_store_n(&g_go, 1, __ATOMIC_RELAXED);
-	join_with_watchdog(th, nt, 4, "a");
+	for (p = 0; p < nt; p++) pthread_join(th[p], NULL);
+	progress(TM, "vbi_decoder_delete");
+	vbi_decoder_delete(A.vbi);
+	progress(TM, "pace");
+	watchdog_stop();
 
 	p = analyse_a();
 	vf_sample("scenario a: %ld frames (%ld time stamp gaps), %ld snapshots, fetches B=%ld C=%ld, %ld channel switch requests, events: %ld caption %ld ttx_page %ld network %ld trigger %ld aspect/prog_info; "
@@ -1077,8 +1110,6 @@ static int run_a(struct vf_rng *r)
 		  A.n_dec, T.gaps, A.n_snaps, A.n_fr[0], A.n_fr[1], A.n_sw, A.ev_count[EVK_CAPTION], A.ev_count[EVK_TTX_PAGE],
 		  A.ev_count[EVK_NETWORK] + A.ev_count[EVK_NETWORK_ID], A.ev_count[EVK_TRIGGER], A.ev_count[EVK_ASPECT] + A.ev_count[EVK_PROG_INFO],
 		  T.headers, T.hdr_parity + T.hdr_nopgno, T.gap_den, T.ttx_den, T.dmg_den);
-	vf_phase("vbi_decoder_delete");
-	vbi_decoder_delete(A.vbi);
 	free(A.snaps); free(A.dec); free(A.capt); free(A.hand); free(A.hand_kind); free(A.fr[0]); free(A.fr[1]); free(A.sw);
 	{ int q; for (q = 0; q < 8; q++) free(A.chg[q]); }
 	return p;
@@ -1504,15 +1535,15 @@ static int analyse_b(void)
 static int b_prepare(struct vf_rng *r)
 {
 	memset(&B, 0, sizeof B);
-	if (!b_make_images(r)) { vf_fail("harness:C20:sim", "vbi_raw_vbi_image failed"); return 0; }
-	if (!b_make_refs()) { vf_fail("harness:C20:ref", "reference decode: a service was refused or a foreign service id appeared"); return 0; }
+	if (!b_make_images(r)) { SETUP_FAIL("harness:C20:sim", "vbi_raw_vbi_image failed"); return 0; }
+	if (!b_make_refs()) { SETUP_FAIL("harness:C20:ref", "reference decode: a service was refused or a foreign service id appeared"); return 0; }
 	/* every service must actually be visible in the reference */
 	{
 		int s, m;
 		for (s = 0; s < NSERV; s++)
 			for (m = 0; m < NIMG; m++)
 				if (B.ref_n[m][1u << s] == 0 || B.ref_h[m][1u << s] == B.ref_h[m][0]) {
-					vf_fail("harness:C20:ref", "service bit %d not decodable from image %d", s, m);
+					SETUP_FAIL("harness:C20:ref", "service bit %d not decodable from image %d", s, m);
 					return 0;
 				}
 	}
@@ -1529,25 +1560,28 @@ static int run_b(struct vf_rng *r)
 {
 	pthread_t th[3];
 	long decodes = vf_param[0] > 0 ? vf_param[0] : 1000;
-	int nontrivial;
+	int nontrivial, nt = 0, i;
 
-	vf_phase("scenario-b-setup");
+	vf_phase("scenario-b");
+	progress(TM, "vbi_raw_decoder(set-up: reference decodes)");
 	if (!b_prepare(r)) { b_free(); return 0; }
 	{
 		char witness[700];
-		int rc = b_sequential_check(r, 400, witness, sizeof witness);
+		int rc;
+		progress(TM, "vbi_raw_decoder(set-up: sequential toggling)");
+		rc = b_sequential_check(r, 400, witness, sizeof witness);
+		progress(TM, "pace");
 		B.quirk = 0;
 		if (rc == 2) {
-			vf_fail("model:C20:sequential-decode-mismatch", "single-threaded toggling: %s", witness);
+			SETUP_FAIL("model:C20:sequential-decode-mismatch", "single-threaded toggling: %s", witness);
 			b_free();
 			return 0;
 		}
 		if (rc == 1) {
 			/* strict reference refuted, divergence is exactly the named quirk */
-			vf_fail("model:C20:Q-removed-service-still-decoded", "single-threaded: %s; the divergence is exactly 'only the first job can be removed'", witness);
+			SETUP_FAIL("model:C20:Q-removed-service-still-decoded", "single-threaded: %s; the divergence is exactly 'only the first job can be removed'", witness);
 			B.quirk = 1;
 		}
-		vf_count("b_sequential_steps", 400);
 	}
 	B.decodes = decodes;
 	vf_rng_seed(&B.rng[0], vf_u64(r), 1);
@@ -1557,27 +1591,26 @@ static int run_b(struct vf_rng *r)
 	B.cap_tr = decodes * 2 + 64;
 	B.tr[0] = xcalloc((size_t)B.cap_tr, sizeof **B.tr);
 	B.tr[1] = xcalloc((size_t)B.cap_tr, sizeof **B.tr);
+	progress(TM, "vbi_raw_decoder_add_services(set-up)");
 	vbi_raw_decoder_init(&B.rd);
 	b_sampling(&B.rd);
-	if (vbi_raw_decoder_add_services(&B.rd, set_of(15), 0) != set_of(15)) { vf_fail("harness:C20:ref", "cannot add all services"); return 0; }
+	if (vbi_raw_decoder_add_services(&B.rd, set_of(15), 0) != set_of(15)) { SETUP_FAIL("harness:C20:ref", "cannot add all services"); return 0; }
+	progress(TM, "pace");
 
 	g_a_done = 0; g_a_frame = 0; g_go = 0;
-	memset(g_progress, 0, sizeof g_progress);
-	memset((void *)g_phase, 0, sizeof g_phase);
-	vf_phase("scenario-b");
-	{
-		int nt = 0;
-		pthread_create(&th[nt++], NULL, b_decode_thread, NULL);
-		pthread_create(&th[nt++], NULL, b_toggle_thread, (void *)0L);
-		if (vf_param[4] & 1) g_phase[2] = "done"; else pthread_create(&th[nt++], NULL, b_toggle_thread, (void *)1L);
-		__atomic_store_n(&g_go, 1, __ATOMIC_RELAXED);
-		join_with_watchdog(th, nt, 3, "b");
-	}
+	pthread_create(&th[nt++], NULL, b_decode_thread, NULL);
+	pthread_create(&th[nt++], NULL, b_toggle_thread, (void *)0L);
+	if (vf_param[4] & 1) progress(2, "done"); else pthread_create(&th[nt++], NULL, b_toggle_thread, (void *)1L);
+	__atomic_store_n(&g_go, 1, __ATOMIC_RELAXED);
+	for (i = 0; i < nt; i++) pthread_join(th[i], NULL);
+	progress(TM, "vbi_raw_decoder_destroy");
+	vbi_raw_decoder_destroy(&B.rd);
+	progress(TM, "pace");
+	watchdog_stop();
 
+	vf_count("b_sequential_steps", 400);
 	nontrivial = analyse_b();
 	vf_sample("scenario b: %ld decodes of %d images x %d lines, toggles/checks B=%ld C=%ld", B.n_dr, NIMG, BLINES, B.n_tr[0], B.n_tr[1]);
-	vf_phase("vbi_raw_decoder_destroy");
-	vbi_raw_decoder_destroy(&B.rd);
 	free(B.dr); free(B.tr[0]); free(B.tr[1]);
 	b_free();
 	return nontrivial;
@@ -1595,8 +1628,10 @@ static int run_case(struct vf_rng *r, long idx)
 		zvbi_verif_yield_seed = vf_param[1] ? 0 : hseed;
 		for (i = 0; i < 8; i++) zvbi_verif_yield_count[i] = 0;
 	}
+	watchdog_start(vf_mode[0] == 'b' ? "b" : "a");
 	if (vf_mode[0] == 'b') nontrivial = run_b(r);
 	else nontrivial = run_a(r);
+	watchdog_stop();                  /* (early returns of the set-up) */
 	vf_count("hook_H2_present", hook);
 	if (hook) {
 		static const char *const site[8] = { "yield_caption_send_event_before_handlers", "yield_caption_send_event_after_handlers",
